@@ -49,8 +49,8 @@ def bounds(tier):
             "families": FAMS, "oversamp": list(OS), "width": list(WD)}
 
 
-GRIDS_Q = [[4], [5], [1], [8], [7], [3, 4], [4, 4], [1, 4], [6, 1], [2, 2, 3], [2, 1, 4]]
-GRIDS_T = [[4], [5], [1], [8], [7], [16], [3, 4], [4, 4], [5, 3], [1, 4], [6, 1], [2, 2, 3], [3, 3, 3], [2, 1, 4]]
+GRIDS_Q = [[4], [5], [1], [8], [7], [3, 4], [4, 4], [1, 4], [6, 1], [2, 2, 3], [2, 1, 4], [2, 3, 2], [3, 2, 2]]
+GRIDS_T = [[4], [5], [1], [8], [7], [16], [3, 4], [4, 4], [5, 3], [1, 4], [6, 1], [2, 2, 3], [3, 3, 3], [2, 1, 4], [2, 3, 2], [3, 2, 2], [4, 2, 4], [3, 4, 4]]
 FAMS = ["random", "ongrid", "half", "cluster", "outside", "dense", "shifted"]
 
 
